@@ -9,7 +9,7 @@ from concurrent.futures import ThreadPoolExecutor
 import vlib
 
 MPI_INC = ["-I/usr/lib/x86_64-linux-gnu/openmpi/include", "-I/usr/lib/x86_64-linux-gnu/openmpi/include/openmpi"]
-RULE = ("for each configuration {TBB+MPI, TBB only, neither (TBB and Boost.MPI headers poisoned with #error)} and each header H under include/parmcb meaningful in it: "
+RULE = ("for each configuration {TBB+MPI, TBB only, MPI only (TBB headers poisoned), neither (TBB and Boost.MPI headers poisoned with #error)} and each header H under include/parmcb meaningful in it: "
         "TU '#include <parmcb/H>' compiled alone (g++ -std=c++14 -c); then every unordered pair {H1,H2} incl. H1=H2 linked from two TUs plus main (quick: pairs (H,H) and pairs "
         "with the umbrella headers); and for every header with a public entry point a USE program (harness/use_header.cpp): that header is the only parmcb include, what it offers is instantiated, linked and run on a small graph. evaluations = compiles + links + runs; distinct_nontrivial = distinct programs (single-header TUs + two-TU programs)")
 
@@ -39,7 +39,8 @@ def headers():
 
 def meaningful(h, tbb, mpi):
     if h.startswith("mpi/"):
-        return tbb and mpi          # the MPI layer needs both (mpi/parmcb_sva_signed.hpp uses TBB directly)
+        # the signed MPI variant uses TBB containers directly (the umbrella leaves it out without TBB); the rest of the MPI layer works without TBB
+        return mpi and (tbb or h != "mpi/parmcb_sva_signed.hpp")
     if h.endswith("_tbb.hpp"):
         return tbb
     return True
@@ -51,7 +52,7 @@ def run(tier):
     hs = headers()
     work = os.path.join(vlib.BUILD, "c19")
     os.makedirs(work, exist_ok=True)
-    configs = [("tbb+mpi", True, True), ("tbb", True, False), ("none", False, False)]
+    configs = [("tbb+mpi", True, True), ("tbb", True, False), ("mpi", False, True), ("none", False, False)]
     jobs = []      # (cfgname, header, src, obj, cmd)
     for name, tbb, mpi in configs:
         cfgdir = vlib.gen_config(tbb=tbb, mpi=mpi)
@@ -111,8 +112,8 @@ def run(tier):
     def link_one(l):
         name, h1, h2 = l
         out = os.path.join(work, "link_%d_%d" % (os.getpid(), abs(hash(l)) % 10**9))
-        libs = ["-lboost_timer", "-lboost_serialization", "-ltbb", "-lpthread"]
-        if name == "tbb+mpi":
+        libs = ["-lboost_timer", "-lboost_serialization", "-lpthread"] + (["-ltbb"] if name in ("tbb+mpi", "tbb") else [])
+        if name in ("tbb+mpi", "mpi"):
             libs += ["-lboost_mpi", "-L/usr/lib/x86_64-linux-gnu/openmpi/lib", "-lmpi_cxx", "-lmpi"]
         p = subprocess.run(["g++", compiled[(name, h1)] + "_a.o", compiled[(name, h2)] + "_b.o", os.path.join(work, "main.o"), "-o", out] + libs,
                            stdout=subprocess.PIPE, stderr=subprocess.STDOUT, text=True)
@@ -147,8 +148,8 @@ def run(tier):
     def use_one(u):
         name, h, inc = u
         out = os.path.join(work, "use_%s__%s" % (name, h.replace("/", "_").replace(".hpp", "")))
-        libs = ["-lboost_timer", "-lboost_serialization", "-lpthread"] + (["-ltbb"] if name != "none" else [])
-        if name == "tbb+mpi":
+        libs = ["-lboost_timer", "-lboost_serialization", "-lpthread"] + (["-ltbb"] if name in ("tbb+mpi", "tbb") else [])
+        if name in ("tbb+mpi", "mpi"):
             libs += ["-lboost_mpi", "-L/usr/lib/x86_64-linux-gnu/openmpi/lib", "-lmpi_cxx", "-lmpi"]
         cmd = ["ccache", "g++", "-std=c++14", "-O0", "-w", "-DUSE_" + USE[h], "-DHDR=<parmcb/%s>" % h] + inc + ["-c", os.path.join(vlib.VERIF, "harness", "use_header.cpp"), "-o", out + ".o"]
         p = subprocess.run(cmd, env=env, stdout=subprocess.PIPE, stderr=subprocess.STDOUT, text=True)
@@ -181,7 +182,7 @@ def run(tier):
     c.programs = nprog
     c.samples = ["config=tbb+mpi: a.cpp='#include <parmcb/util.hpp>' b.cpp='#include <parmcb/parmcb.hpp>' main.cpp -> link",
                  "config=none: '#include <parmcb/sptrees.hpp>' compiled alone with <tbb/*.h> poisoned"]
-    c.bounds.append({"bound": "headers=%d configs=3 tier=%s" % (len(hs), tier), "single_header_TUs": len(jobs), "two_TU_programs": len(links), "use_programs": len(uses), "complete": True})
+    c.bounds.append({"bound": "headers=%d configs=4 (tbb+mpi, tbb, mpi, none) tier=%s" % (len(hs), tier), "single_header_TUs": len(jobs), "two_TU_programs": len(links), "use_programs": len(uses), "complete": True})
     c.total_reported = len(c.violations)
     return c.finish()
 
